@@ -109,6 +109,9 @@ type c07Ev struct {
 	Node   string   `json:"node,omitempty"`
 	Parent string   `json:"parent,omitempty"`
 	Points []sPoint `json:"points,omitempty"`
+	// the slice as the manager handed it over: a client may keep it (the clients of the repository pass it on to their
+	// Run loop through a channel), so what it holds is read when the log is looked at, not inside the callback
+	raw []data.Point
 }
 
 type c07Log struct {
@@ -116,6 +119,8 @@ type c07Log struct {
 	clock int
 	evs   []c07Ev
 	insts []*c07Client
+	// how long a client takes to return from Run after Stop (a client that closes a port or flushes a file first)
+	stopDelay time.Duration
 }
 
 func (l *c07Log) add(e c07Ev) {
@@ -129,6 +134,11 @@ func (l *c07Log) add(e c07Ev) {
 func (l *c07Log) snapshot() ([]c07Ev, []*c07Client) {
 	l.mu.Lock()
 	defer l.mu.Unlock()
+	for i := range l.evs {
+		if l.evs[i].raw != nil {
+			l.evs[i].Points = c07SPoints(l.evs[i].raw)
+		}
+	}
 	return append([]c07Ev(nil), l.evs...), append([]*c07Client(nil), l.insts...)
 }
 
@@ -162,6 +172,9 @@ func (l *c07Log) construct(_ *nats.Conn, config c07Node) client.Client {
 func (c *c07Client) Run() error {
 	c.lg.add(c07Ev{Kind: "run", Inst: c.inst, Key: c.key})
 	<-c.stopCh
+	if c.lg.stopDelay > 0 {
+		time.Sleep(c.lg.stopDelay)
+	}
 	c.lg.add(c07Ev{Kind: "exit", Inst: c.inst, Key: c.key})
 	return nil
 }
@@ -190,14 +203,14 @@ func (c *c07Client) Points(id string, pts []data.Point) {
 		c.mu.Unlock()
 		return
 	}
-	c.lg.add(c07Ev{Kind: "points", Inst: c.inst, Key: c.key, Node: id, Points: c07SPoints(pts)})
+	c.lg.add(c07Ev{Kind: "points", Inst: c.inst, Key: c.key, Node: id, Points: c07SPoints(pts), raw: pts})
 	c.mu.Lock()
 	_ = data.MergePoints(id, pts, &c.cfg)
 	c.mu.Unlock()
 }
 
 func (c *c07Client) EdgePoints(id, parent string, pts []data.Point) {
-	c.lg.add(c07Ev{Kind: "edge", Inst: c.inst, Key: c.key, Node: id, Parent: parent, Points: c07SPoints(pts)})
+	c.lg.add(c07Ev{Kind: "edge", Inst: c.inst, Key: c.key, Node: id, Parent: parent, Points: c07SPoints(pts), raw: pts})
 	c.mu.Lock()
 	_ = data.MergeEdgePoints(id, parent, pts, &c.cfg)
 	c.mu.Unlock()
@@ -265,6 +278,7 @@ type c07Case struct {
 	Nodes       []string       `json:"nodes"`
 	Steps       []c07Step      `json:"steps"`
 	OpKinds     map[string]int `json:"op_kinds,omitempty"`
+	StopDelayMs int            `json:"stop_delay_ms,omitempty"` // clients of this history take that long to return from Run
 	// observations
 	Root         string       `json:"root"`
 	Init         []sView      `json:"init"`
@@ -679,6 +693,24 @@ func (rn *c07Runner) step(st c07Step) c07StepObs {
 	}
 	restart := map[string]bool{}
 	for _, op := range st.Ops {
+		if op.Kind == "wait-stop" {
+			// not a request: the history goes on once some client has been told to stop and has not returned from Run yet
+			// (a rescan is asked for first); gives up quietly after 3 s
+			obs.Ops = append(obs.Ops, rn.trigger())
+			for dl := time.Now().Add(3 * time.Second); time.Now().Before(dl); time.Sleep(time.Millisecond) {
+				evs, insts := rn.lg.snapshot()
+				winding := false
+				for _, l := range c07Lives(evs, insts) {
+					if l.stopped && !l.exited {
+						winding = true
+					}
+				}
+				if winding {
+					break
+				}
+			}
+			continue
+		}
 		// a client that authors a write has handled what it was told before
 		var mine map[int]bool
 		for k, i := range start {
@@ -811,7 +843,7 @@ func c07RunCase(c *c07Case) error {
 	if err := hnc.Flush(); err != nil {
 		return err
 	}
-	rn := &c07Runner{c: c, hnc: hnc, sub: sub, lg: &c07Log{}, clock: c07Base, stepDl: 12 * time.Second}
+	rn := &c07Runner{c: c, hnc: hnc, sub: sub, lg: &c07Log{stopDelay: time.Duration(c.StopDelayMs) * time.Millisecond}, clock: c07Base, stepDl: 12 * time.Second}
 	rn.ids = append([]string{storeRootID}, c.Nodes...)
 	kids, err := client.GetNodes(hnc, storeRootID, "all", "", true)
 	if err != nil {
@@ -1309,6 +1341,24 @@ func c07GroupDeletion(r *rand.Rand, id int, second bool) *c07Case {
 	return g.finish(id, kind, "c07")
 }
 
+// the holder of the only managed node is deleted and, while the client that a rescan stopped is still winding down
+// (it takes 700 ms to return from Run), restored: one burst, at the end of which exactly one client runs
+func c07GroupRestoredWhileStopping(r *rand.Rand, id int) *c07Case {
+	g := c07NewGen(r)
+	g.ptypes = nil
+	var pre []sOp
+	pre = append(pre, g.createOps("g1", "group", storeRootID)...)
+	pre = append(pre, g.createOps("n1", c07TypeNode, "g1")...)
+	g.steps = append(g.steps, c07Step{Kind: 3, Ops: pre})
+	ops := []sOp{g.tomb(storeRootID+">g1", 1), {Kind: "wait-stop"}, g.tomb(storeRootID+">g1", 0)}
+	g.steps = append(g.steps, c07Step{Kind: 2, Ops: ops})
+	g.kinds["restore-while-stopping"]++
+	g.seq("create-unrelated", g.createOps("v1", "variable", storeRootID)...)
+	c := g.finish(id, "group-restored-while-client-winds-down", "c07")
+	c.StopDelayMs = 700
+	return c
+}
+
 func c07Generate(r *rand.Rand, id int) *c07Case {
 	g := c07NewGen(r)
 	// the store before the manager starts
@@ -1494,6 +1544,8 @@ func c07Run(cfg *config) error {
 		for i := 0; i < 60*cfg.scale; i++ {
 			cases = append(cases, c07Generate(r, len(cases)))
 		}
+		// a client that is slow to stop, and its holder restored while it winds down (twice: the timing is the manager's)
+		cases = append(cases, c07GroupRestoredWhileStopping(r, len(cases)), c07GroupRestoredWhileStopping(r, len(cases)+1))
 	}
 	for _, c := range cases {
 		c.Prop = "c07"
